@@ -78,7 +78,7 @@ def run(ck, prog, ctx):
             if acc:
                 bvs = r["arms"][w["version"]]
                 # every written section must be read for that version: evaluate the version guards of from_bytes
-                fb = prog.body(codec.ONT + "from_bytes")
+                fb = codec.ontology_reader(prog)["body"]
                 ok = True
                 detail = []
                 if fb is not None and len(bvs) == 1:
@@ -108,7 +108,7 @@ def run(ck, prog, ctx):
 
     # ------------------------------------------------------------------ ORDER
     ab = prog.body(codec.ONT + "as_bytes")
-    fb = prog.body(codec.ONT + "from_bytes")
+    fb = codec.ontology_reader(prog)["body"]
     if ck.anchor("ORDER", "Ontology::as_bytes", ab) and ck.anchor("ORDER", "Ontology::from_bytes", fb):
         def seq(b):
             sites = [(bi, codec.section_label_of_call(prog, pvn, b, t)) for bi, t in b.calls()]
@@ -558,7 +558,7 @@ def run(ck, prog, ctx):
                 ck.undecided("LAYOUT", "framing", "no (length prefix, payload) pair appended to the output in Ontology::as_bytes itself (framing done by a helper?)", where=ab.where())
     # ---- reader side of the framing: a section header is 4 bytes, and the LAST section may be empty - then exactly 4 bytes remain.
     # The function that reads a section length must neither demand nor read more than those 4 bytes.
-    fbr = prog.body(codec.ONT + "from_bytes")
+    fbr = codec.ontology_reader(prog)["body"]
     if fbr is not None:
         heads = []
 
